@@ -327,6 +327,9 @@ class PeerConnection:
         self._interrupt_fileno: int = interrupt_fileno
         self._last_msg: int = 0
         self._last_read: int = 0
+        # timestamp of the transport becoming established, i.e. the start of
+        # the CER/CEA wait
+        self._established: int = 0
         # timestamp of last DWR sent, cleared after DWA
         self._last_dwr: int = 0
         self._read_buffer: bytes = b""
@@ -389,6 +392,7 @@ class PeerConnection:
 
         self.reset_last_message()
         self.reset_last_read()
+        self.reset_established()
         self._read_thread.start()
         self._write_thread.start()
 
@@ -450,6 +454,12 @@ class PeerConnection:
         return int(time.time()) - self._last_dwr
 
     @property
+    def established_since(self) -> int:
+        """Seconds since the connection was accepted or its outgoing socket
+        became connected."""
+        return int(time.time()) - self._established
+
+    @property
     def last_read_since(self) -> int:
         """Seconds since bytes were last receveid from the network."""
         return int(time.time()) - self._last_read
@@ -507,6 +517,13 @@ class PeerConnection:
     def remove_out_bytes(self, sent_bytes: int):
         """Remove a given amount of bytes from outgoing buffer."""
         self._write_buffer = self._write_buffer[sent_bytes:]
+
+    def reset_established(self):
+        """Mark that the transport has just been established.
+
+        Starts the timer for the capabilities exchange to complete.
+        """
+        self._established = int(time.time())
 
     def reset_last_message(self):
         """Mark that a full diameter message has been received.
